@@ -69,8 +69,10 @@ impl<'r> Printer<'r> {
 
     fn one_ws(&mut self) {
         let r = self.rng.as_mut().unwrap();
-        let k = r.below(12);
+        let k = r.below(14);
         let s: String = match k {
+            12 => "// a lone CR is not a line end:\r| \"nil\" ~ x\n".into(),
+            13 => "/* \r */".into(),
             0..=4 => " ".into(),
             5 => "\t".into(),
             6 => "\n".into(),
